@@ -38,7 +38,7 @@ def run(ctx):
                            lambda l, r: l.split("\t")[1] != l.split("\t")[2] and r[3:4] in "ATUO")
     n_rand = 1500 if ctx.tier == "quick" else 30000
     deep = [vlib.rand_shape(ctx.rng, 3) for _ in range(n_rand)]
-    rel = [(s, vlib.mutate_shape(ctx.rng, s)) for s in deep]
+    rel = [(s, vlib.mutate_shape(ctx.rng, s)) for s in deep] + vlib.structured_pairs(stride=1 if ctx.tier != 'quick' else 3)[::2]
     lines2 = []
     for a, b in rel:
         lines2 += ["merger\t%s\t%s" % (sh_str(a), sh_str(b)), "merger\t%s\t%s" % (sh_str(b), sh_str(a))]
